@@ -77,6 +77,14 @@ public:
     executeChildElement(
             StylesheetExecutionContext& executionContext,
             const ElemTemplateElement*  element) const;
+
+    virtual const ElemTemplateElement*
+    getFirstChildElemToExecute(StylesheetExecutionContext&  executionContext) const;
+
+    virtual const ElemTemplateElement*
+    getNextChildElemToExecute(
+            StylesheetExecutionContext&     executionContext,
+            const ElemTemplateElement*      currentElem) const;
 #else
     virtual void 
     execute(StylesheetExecutionContext&     executionContext) const;
